@@ -52,6 +52,7 @@ func runC14(c *core.Ctx) {
 	x.errWorks()
 	x.cursor()
 	x.leafAssign()
+	x.leafUse()
 }
 
 // ---------- small helpers ----------
@@ -1693,4 +1694,99 @@ func (x *c14x) leafAssign() {
 		}
 	}
 	c.Floor("V.leaf.assign", "positioning stores to ChunkReader.nextChunk", n, 1)
+}
+
+// leafUse (V.leaf.use; C14 and C15): every `currNode.chunk(i, …)` — the place an
+// index element becomes a Chunk — is reached only on paths where `isLeaf(i)`
+// was found true since the index i was last written. NextChunk walks the
+// elements after the one the descent landed on by `nextChunk++`; each of them
+// may be a branch child (repaired defect ffcbbe4: a branch child following a
+// leaf child was returned as a chunk with the child node's bytes as CPrimary).
+func (x *c14x) leafUse() {
+	c, k := x.c, x.k
+	fNext := x.field("ChunkReader", "nextChunk")
+	if fNext == nil {
+		return
+	}
+	p := k.g.Pkg(c14Rac)
+	n := 0
+	for _, f := range k.g.AllFuncs(p) {
+		info := f.Info()
+		var uses []*ast.CallExpr
+		ast.Inspect(f.Decl.Body, func(m ast.Node) bool {
+			call, ok := m.(*ast.CallExpr)
+			if !ok || len(call.Args) < 1 {
+				return true
+			}
+			fn := core.Callee(info, call)
+			if fn != nil && fn.Name() == "chunk" && fn.Pkg() != nil && strings.HasSuffix(fn.Pkg().Path(), c14Rac) {
+				uses = append(uses, call)
+			}
+			return true
+		})
+		if len(uses) == 0 {
+			continue
+		}
+		fl := core.NewFlow(f)
+		for _, call := range uses {
+			call := call
+			idx := c14Strip(info, call.Args[0])
+			isIdx := func(e ast.Expr) bool {
+				e = c14Strip(info, e)
+				if core.FieldOf(info, idx, fNext) {
+					return core.FieldOf(info, e, fNext)
+				}
+				return fl.Obj(idx) != nil && fl.Obj(e) == fl.Obj(idx)
+			}
+			writesIdx := func(m ast.Node) bool {
+				switch s := m.(type) {
+				case *ast.IncDecStmt:
+					return isIdx(s.X)
+				case *ast.AssignStmt:
+					for _, l := range s.Lhs {
+						if isIdx(l) {
+							return true
+						}
+					}
+				}
+				return false
+			}
+			isUse := func(m ast.Node) bool {
+				if _, isIf := m.(*ast.IfStmt); isIf {
+					return false
+				}
+				if _, isFor := m.(*ast.ForStmt); isFor {
+					return false
+				}
+				return core.AnyCall(m, func(cl *ast.CallExpr) bool { return cl == call })
+			}
+			leafEdge := core.Event{Edge: func(cond ast.Expr, ci *core.CondInfo, taken bool) bool {
+				ce, neg := boolCond(cond)
+				if neg {
+					taken = !taken
+				}
+				cl, ok := ce.(*ast.CallExpr)
+				if !ok || !taken || len(cl.Args) != 1 {
+					return false
+				}
+				fn := core.Callee(info, cl)
+				return fn != nil && fn.Name() == "isLeaf" && isIdx(cl.Args[0])
+			}}
+			n++
+			anchor := f.Name() + "[" + core.Src(k.g.Fset, call) + "]"
+			claim := "an index element is turned into a Chunk only after isLeaf found it to be a leaf, re-tested after every change of the index (a node may mix leaf and branch children: a branch child must be descended into, not returned with the child node's bytes as its compressed data)"
+			// from function entry, and from every write of the index, to the use
+			esc, sites := fl.Escapes(core.Query{Start: writesIdx, Exit: isUse, Events: []core.Event{leafEdge}})
+			if len(esc) == 0 {
+				c.Pass("V.leaf.use", anchor, claim, sites+1, k.g.Pos(call.Pos()))
+			} else {
+				var lines []string
+				for _, e := range esc {
+					lines = append(lines, e.String())
+				}
+				c.Fail("V.leaf.use", anchor, claim, sites, strings.Join(lines, "\n"))
+			}
+		}
+	}
+	c.Floor("V.leaf.use", "places where an index element is turned into a Chunk", n, 1)
 }
